@@ -28,6 +28,11 @@ func RunC12(c *Ctx, r *Report) {
 	w.perFunctionRule(r, prefix+"siblings.shared-record")
 	r.Rule(prefix+"canonical-identity", "W ⊆ R: what the encoder writes is what the decoder reads back, so that re-encoding a canonical datagram is byte-identical (together with R ⊆ W and the regenerated constants/lengths)", 60)
 	w.inclusion(r, prefix+"canonical-identity", w.enc, w.dec, "the encoder", "the decoder", "re-encoding a canonical datagram would not be byte-identical")
+	// canonical datagrams come from an independent encoder: every wire bit the reference layout gives to a field
+	// is kept by the decoder at full width (a field type narrower than its wire slot drops the upper bits on decode
+	// and re-encodes zeros there; the encoder and decoder of this library still agree with each other)
+	r.Rule(prefix+"r-equals-spec", "decoder layout = RFC layout for every field and octet string: no bit of a wire field is dropped, no reserved bit reaches a field", 60)
+	w.specCompare(r, prefix+"r-equals-spec", "decode", w.dec)
 	w.lengthSlotRule(r, prefix+"length-slots")
 	w.listStrideAgreement(r, prefix+"list-stride-agreement")
 	w.nestedDispatchRule(r, prefix+"nested-dispatch")
@@ -100,7 +105,8 @@ func RunC14(c *Ctx, r *Report) {
 		}
 	}
 	c.valueGuardRule(r, prefix+"value-guards")
-	c.noSilentSkipRule(r, prefix+"decode.no-silent-skip", "eap", "message")
+	c.noSilentSkipRule(r, prefix+"decode.no-silent-skip", "eap")
+	c.lostReceiverStoreRule(r, prefix+"set.receiver-by-pointer", "eap")
 	c.assignedNumbersRule(r, prefix+"assigned-numbers", "eap")
 	// decoding is a function of the octets, not of what an earlier call left in the object decoded into
 	{
